@@ -157,6 +157,24 @@ def summary(prog, body, depth=3, args=None, stop=None, effects=None):
             return None
 
 
+def inline_closures(prog, body, term, depth=3):
+    """replace ("closure", name, captures) by ("lambda", return term, effects) computed from the closure's own body with
+    its captured variables substituted, so the result does not depend on the order in which variables are captured nor
+    on the closure's numbering; the closure's own parameters are ("carg", i)"""
+    if not isinstance(term, tuple):
+        return term
+    if term and term[0] == "closure" and depth > 0:
+        caps = tuple(inline_closures(prog, body, c, depth) for c in term[2])
+        cb = prog.bodies.get(body.name + "::" + term[1])
+        if cb is not None:
+            eff = []
+            ret = summary(prog, cb, args=[("tuple", caps)] + [("carg", i) for i in range(2, cb.arg_count + 1)], effects=eff)
+            if ret is not None:
+                return ("lambda", inline_closures(prog, cb, ret, depth - 1), tuple(inline_closures(prog, cb, e, depth - 1) for e in eff))
+        return ("closure", term[1], caps)
+    return tuple(inline_closures(prog, body, x, depth) for x in term)
+
+
 def _short(n):
     """`<T as Trait<X>>::m` -> `Trait::m`; `a::b::Type::<T>::m` -> `Type::m`"""
     import re as _re
@@ -202,6 +220,10 @@ def fmt(t, short=True):
         return "fn:" + t[1].split("::")[-1]
     if k == "closure":
         return "closure:%s(%s)" % (t[1], ", ".join(fmt(a, short) for a in t[2]))
+    if k == "lambda":
+        return "|..|{%s}" % "; ".join([fmt(e, short) for e in t[2]] + [fmt(t[1], short)])
+    if k == "carg":
+        return "a%d" % t[1]
     if k == "op":
         return "%s(%s)" % (t[1], ", ".join(fmt(a, short) for a in t[2]))
     if k == "discr":
